@@ -219,6 +219,36 @@ def sweep_use(tier, seed):
                      'the generated tasks are executed and compared with the request; 11 double injections (both positional orders, both keyword assignments, mixed, one task injected twice under two keys), all ordered pairs', 'samples': [{'requests': ['f|t1|result|hard|pos', 'f_same_name|t1|result|hard|pos']}]}
 
 
+def factory_name_clashes():
+    '''tasks generated WITHOUT a name by factories that differ in their executable, default arguments or default keywords: two tasks that run different command
+    lines have different names (the name is their output directory and their entry in the environment)'''
+    from valjean.cosette.run import RunTaskFactory
+    from valjean.cosette.env import Env
+    from valjean.config import Config
+    makers = {
+        "tool x{v}, v=0": lambda: RunTaskFactory.from_executable('/bin/tool', default_args=['x{v}'], v='0'),
+        "tool x{v}, v=9": lambda: RunTaskFactory.from_executable('/bin/tool', default_args=['x{v}'], v='9'),
+        "tool x{v} {w}, v=0, w=1": lambda: RunTaskFactory.from_executable('/bin/tool', default_args=['x{v}', '{w}'], v='0', w='1'),
+        "tool x{v} {w}, v=0, w=2": lambda: RunTaskFactory.from_executable('/bin/tool', default_args=['x{v}', '{w}'], v='0', w='2'),
+        "other x{v}, v=0": lambda: RunTaskFactory.from_executable('/bin/other', default_args=['x{v}'], v='0'),
+    }
+    probs, n = [], 0
+    made = {}
+    for lab, mk in makers.items():
+        for call in ({}, {'v': '5'}):
+            t = mk().make(**call)
+            cli = t.func.keywords['clis_closure'](Env(), Config())
+            made[(lab, tuple(sorted(call.items())))] = (t, cli)
+    keys = list(made)
+    for i, a in enumerate(keys):
+        for b in keys[i + 1:]:
+            n += 1
+            (ta, ca), (tb, cb) = made[a], made[b]
+            if ca != cb and ta.name == tb.name:
+                probs.append(f'factory [{a[0]}] called with {dict(a[1])} and factory [{b[0]}] called with {dict(b[1])} run {ca} and {cb} under the same task name {ta.name!r}')
+    return n, probs
+
+
 def sweep_factory(tier, seed):
     from valjean.cosette.run import RunTaskFactory
     from valjean.cosette.env import Env
@@ -291,9 +321,13 @@ def sweep_factory(tier, seed):
                 break
         if len(fails) >= 8:
             break
+    n2, clashes = factory_name_clashes()
+    n += n2
+    if clashes:
+        fails.append({'input': {'unnamed_tasks_of_several_factories': True}, 'observed': clashes[:3], 'expected': 'different command lines, different task names'})
     return {'name': 'factory-requests-native', 'evaluations': n, 'distinct': n, 'failures': fails[:8], 'exhaustive': tier != 'quick',
             'bound': f'pairs of RunTaskFactory.make requests: name in {{None, named}} x 4 extra-argument lists (two with braces) x 3 format kwargs x 3 dependency lists x 2 soft-dependency '
-                     f'lists x 2 subprocess-argument dicts ({len(reqs)} requests); every identical pair, {"1500 sampled" if tier == "quick" else "all"} different pairs',
+                     f'lists x 2 subprocess-argument dicts ({len(reqs)} requests); every identical pair, {"1500 sampled" if tier == "quick" else "all"} different pairs; unnamed tasks of 5 factories differing in executable / default arguments / default keywords',
             'samples': [{'requests': ["(None, ['-a'], {}, [], [], {})", "(None, ['-a'], {}, [0], [], {})"]}]}
 
 
